@@ -8,7 +8,7 @@ META = {
                    "ConductorError (EXC2); schema tables equal the documented parameters, defaults and the constructors' signatures (SCH1); "
                    "validator decision structure, name check, unique names, primitive args/options (VAL1); include() checks and scope (INC1); "
                    "name grammar (RX1); --check never executes (RUN1); errors become ERROR + non-zero exit (CLI1).",
-    "rules": ["EXC1", "SCP1", "EXC2", "EXC3", "SCH1", "VAL1", "INC1", "INC2", "RX1", "RUN1", "CLI1"],
+    "rules": ["EXC1", "SCP1", "EXC2", "EXC3", "SCH1", "VAL1", "INC1", "INC2", "RX1", "RUN1", "CLI1", "GRP1", "GRP2", "GRP3", "GRP4", "GRP5", "GRP6"],
     "assumptions": ["completeness of rejection over arbitrary Python values is the input space of exec — not decided", "SystemExit raised by a COND file is out of scope"],
     "trusted": ["ast parser", "call graph incl. the idiom table for COND constructors"],
 }
@@ -22,6 +22,10 @@ def run(A, rep, tier):
     CD.rule_val1(A, rep)
     CD.rule_inc1(A, rep)
     CD.rule_inc2(A, rep)
+    # run_experiment_group hands the instance's values to run_experiment as they are (no coercion that would turn an
+    # ill-typed value into a well-typed one before the validator sees it)
+    from . import group as GRPM
+    GRPM.rule_grp(A, rep)
     m = A.prog.module("task_identifier")
     regs = RX.compiled_regexes(A, m)
     done = False
